@@ -1,10 +1,51 @@
 # Table read by tools/gen_manifest.py
 HOOK_COMMITS = []
 NOT_APPLICABLE = {}
-NOTES = ('All checks run the real gearpy code from /repo (editable install) on fresh objects; '
-         'known genuine defects are listed in /verif/known_findings.txt and reported as KNOWN-FINDING lines.')
+NOTES = ('All checks run the real gearpy code from /repo (editable install, verified at start-up) on fresh objects through public API only; '
+         'no source hooks exist. Every check enumerates a finite space completely (bounds in evidence.coverage.bounds) and compares the '
+         'implementation with a gearpy-free reference model (gmc/ref.py, gmc/si.py) on every transition. Genuine defects that were not '
+         'repaired are listed in /verif/known_findings.txt and reported as KNOWN-FINDING lines; repaired ones are recorded there as fixed: lines. '
+         'TLC / Spin / Apalache are not used (see DESIGN.md section 8).')
 
+T = 'Trusts the reference model in gmc/ref.py / gmc/si.py and the stated comparison tolerances; says nothing about values, chains or horizons outside the enumerated bounds (listed in the evidence).'
+
+add('C01', 'bounded exhaustive enumeration of chain topologies x loads x initial conditions x run schedules; invariant checked on every recorded instant',
+    'Every chain of the grammar up to the bound (and repeated patterns to 12 elements) is simulated under every load/initial-condition/schedule of the menu, including continuation, early stop, reset/rerun and held self-locking chains; the ratio invariant is evaluated on every recorded instant and every adjacent pair.', T, 'DESIGN.md 5/C01')
+add('C02', 'all duty-cycle sequences to the depth (scripted rule) on every chain x load function; reference torque relations on every instant',
+    'Explores every duty-cycle sequence over {1,0.3,0,-1} to the depth on every chain/motor/load of the menu and checks motor characteristic, downstream/upstream propagation, load-function arguments (recorded by a wrapper) and torque balance on every recorded instant.', T, 'DESIGN.md 5/C02')
+add('C03', 'exhaustive environment sequences (full product to depth, deviation-bounded over a longer horizon) on the real solver; one-step conformance to a reference update',
+    'The environment chooses duty proposal and load torque at every instant; all sequences to the depth and all sequences with <= b deviations are executed, fresh and continued, in all inertia/time/position/speed units; every transition is compared with the reference update computed from the recorded state.', T, 'DESIGN.md 5/C03')
+add('C04', 'exhaustive configuration grid x geometric dt ladder against the closed-form solution with a proven explicit-Euler bound',
+    'Every configuration of the grid is simulated on a ladder of halved time steps; every instant is compared with the analytic solution under a rigorous O(dt) bound and the error ratio between rungs is checked. A finite ladder decides first-order behaviour down to its last rung, not the limit.', T, 'DESIGN.md 5/C04')
 add('C05', 'exhaustive enumeration of all 607 ordered unit pairs x value alphabet x neighbour classes against an independent SI table',
-    'Every ordered unit pair of every kind is converted (copy and in place) and compared (6 operators, both operand orders) over a value alphabet spanning 19 decades; the oracle is an SI table rebuilt from unit definitions. A wrong factor for any unit, or an order-dependent comparison, cannot escape because the unit-pair space is covered completely.',
-    'Trusts gmc/si.py (exact rationals and pi). Values outside the alphabet are not covered; tolerance 8 ulp for conversions.',
-    'DESIGN.md 5/C05')
+    'Every ordered unit pair of every kind is converted (copy and in place) and compared (6 operators, both operand orders) over a value alphabet spanning 19 decades; the oracle is an SI table rebuilt from unit definitions.', T, 'DESIGN.md 5/C05')
+add('C06', 'exhaustive enumeration of operand-kind pairs (15x15) x operators x unit choices x magnitudes against a dimension algebra and inverse laws',
+    'Every ordered pair of operand kinds, every operator and every unit choice is executed; result kind, SI magnitude, admissible exceptions and the laws (a+b)-b=a, a-b=-(b-a) are checked.', T, 'DESIGN.md 5/C06')
+add('C07', 'deviation-bounded exhaustive enumeration of unit assignments (every single re-expression, then pairs) with a differential oracle between two executions',
+    'Six models that together use every input quantity are re-run with one quantity (every other unit of its kind) and then two quantities re-expressed; success/failure class, time axis, all histories and a snapshot must agree with the base run.', T, 'DESIGN.md 5/C07')
+add('C08', 'exhaustive grid of motor constants x speeds x duty cycles including the dead-zone boundary and its +-4 ulp neighbours',
+    'Every point of the grid (all current-unit combinations, every (i0, imax) pair) is driven through the real motor and compared with the documented piecewise law; exact zero in the dead zone, parity, anchor points, continuity and absence of exceptions at the boundary neighbours.', T, 'DESIGN.md 5/C08')
+add('C09', 'exhaustive teeth range 10..520 x roles x data subsets (2^3 x 2^3) x geometry lists against independent formulas and embedded tables',
+    'All teeth numbers to beyond the table end, every subset of optional data of gear and mate, all pressure angles and both orientations are evaluated on the real gear objects and compared with formulas written from the documentation.', T, 'DESIGN.md 5/C09')
+add('C10', 'exhaustive one-step pairs x parameters, plus explicit-state BFS over declaration histories (deduplicated on relation attributes)',
+    'Every ordered pair of a 72-element universe x three functions x in/out-of-range parameters is declared on fresh objects; BFS explores all sequences of calls (including failing ones) to the depth; accept/reject, post-conditions and "rejected call leaves both elements unmodified" are checked on every transition.', T, 'DESIGN.md 5/C10')
+add('C11', 'exhaustive enumeration of decimal (dt, n) pairs x representations x time units x continuations against an exact rational grid',
+    'Every decimal step and step count in the bound is run fresh and continued in all four time units; instant count, grid values and "none beyond T" are compared with Fractions.', T, 'DESIGN.md 5/C11')
+add('C12', 'exhaustive schedules (every split point, up to 3 runs, unit combinations, reset / new solver) with a differential oracle',
+    'Every schedule in the bound is executed and compared with its single-run / first-execution counterpart on the whole trajectory.', T, 'DESIGN.md 5/C12')
+add('C13', 'exhaustive environment sequences (duty x load) on worm chains with a reference lock automaton run alongside; abstract situation coverage reported',
+    'All (duty, load) sequences to the depth on base configurations and all deviation-bounded sequences on every geometry/friction/topology are executed; direction of motion, held state, release condition and "never clamped without self-locking" are checked at every instant.', T, 'DESIGN.md 5/C13')
+add('C14', 'exhaustive rule multisets (size <= 4) x state grid one-step, plus simulations of every rule subset with recording proxies',
+    'Every multiset of rules from the menu is arbitrated in every state of the grid; single-winner, default 1, clipping, conflict error and range of every recorded duty cycle are checked.', T, 'DESIGN.md 5/C14')
+add('C15', 'exhaustive boundary grids per rule kind (both sides / on / +-1 ulp of every window edge) and controlled simulations',
+    'Each built-in rule is evaluated on a state grid around its window boundaries for parameter grids in several units and every sensor target; StartLimitCurrent is judged by substituting its proposal into the reference current law and by the recorded current of controlled simulations.', T, 'DESIGN.md 5/C15')
+add('C16', 'exhaustive thresholds (at and between every sample, all operators, sensors, elements, units) with a differential oracle against the unstopped run',
+    'For every sensor/element/operator the threshold is placed below, above, midway between and exactly on every sample of the unstopped run; the stopped run must end at the first instant the plain-float comparison holds and equal the unstopped run on that prefix.', T, 'DESIGN.md 5/C16')
+add('C17', 'exhaustive optional-data subsets x hosting chains x all operation histories to the depth',
+    'Every subset of optional data of every element kind is simulated through every history of runs, early stops, continuations and resets; sample counts, kinds, last-sample/attribute agreement, export and snapshot are checked after every step.', T, 'DESIGN.md 5/C17')
+add('C18', 'exhaustive variable subsets (up to 2047), target times, time units and unit deviations against reference interpolation',
+    'Every non-empty subset of variables, every target time class and every single (thorough: pair) unit deviation is requested from the real snapshot/export and compared cell by cell with a reference interpolation.', T, 'DESIGN.md 5/C18')
+add('C19', 'explicit-state BFS over straight-line programs of quantity operations on live objects; invariant on every reachable object; exhaustive constructor boundary grid',
+    'All operation sequences to the depth are executed on fresh pools; after every step every live object is inspected; component constructors are probed at valid/zero/negative/boundary/+-1 ulp values.', T, 'DESIGN.md 5/C19')
+add('C20', 'explicit-state BFS over relation-declaration histories on the real functions and constructor; reference = link-dict walk',
+    'All histories of valid declarations to the depth are replayed; at every acyclic state the powertrain is assembled under three naming schemes and re-inspected after every further declaration; every grammar chain of 2..12 elements is also built directly.', T, 'DESIGN.md 5/C20')
